@@ -211,8 +211,19 @@ func runNamesSim(env *RunEnv) {
 		}
 		sort.Slice(tss, func(i, j int) bool { return tss[i] < tss[j] })
 		extra := snapshot.NameExtra{}
-		if t.Chance("nm-extra", 300) {
-			extra = append(extra, "X42", "Yabc")
+		if t.Chance("nm-extra", 400) {
+			// documented: items start with a unique capital letter other
+			// than 'G', sorted, values without "__"
+			vals := []string{"", "0", "42", "abc", "a_b", "Z", "9-x", "G"}
+			for c := byte('A'); c <= 'Z'; c++ {
+				if c != 'G' && t.Chance("nm-extra-type", 120) {
+					extra = append(extra, snapshot.NameExtraItem(string(c)+vals[t.Choose("nm-extra-val", len(vals))]))
+				}
+			}
+			if t.Chance("nm-extra-edge", 300) {
+				// the ends of the alphabet
+				extra = snapshot.NameExtra{"A" + snapshot.NameExtraItem(vals[t.Choose("nm-extra-val", len(vals))]), "Z" + snapshot.NameExtraItem(vals[t.Choose("nm-extra-val", len(vals))])}
+			}
 		}
 		for _, v := range tss {
 			ts := time.Unix(0, v).In(zone)
